@@ -1,0 +1,59 @@
+//go:build verif
+
+package cluster
+
+import (
+	"time"
+
+	"github.com/emitter-io/emitter/internal/event"
+	"github.com/emitter-io/emitter/internal/message"
+	"github.com/weaveworks/mesh"
+)
+
+// VerifSetGossip replaces the gossip sender of the swarm and makes every peer created from now
+// on use it, with the 5 ms send-queue timer cancelled (the harness flushes explicitly).
+func (s *Swarm) VerifSetGossip(g mesh.Gossip) {
+	s.gossip = g
+	s.members = newMemberlist(func(name mesh.PeerName) *Peer {
+		p := s.newPeer(name)
+		p.cancel()
+		return p
+	})
+}
+
+// VerifState returns the replicated state.
+func (s *Swarm) VerifState() *event.State { return s.state }
+
+// VerifName returns the peer name of this swarm.
+func (s *Swarm) VerifName() mesh.PeerName { return s.name }
+
+// VerifPeerOffline is what the router's GC callback does.
+func (s *Swarm) VerifPeerOffline(name mesh.PeerName) { s.onPeerOffline(name) }
+
+// VerifTouch marks the peer as alive (what update() does for reachable peers).
+func (s *Swarm) VerifTouch(name mesh.PeerName) { s.members.Touch(name) }
+
+// VerifPeer returns the peer object if known.
+func (s *Swarm) VerifPeer(name mesh.PeerName) *Peer {
+	if p, ok := s.members.list.Load(name); ok {
+		return p.(*Peer)
+	}
+	return nil
+}
+
+// VerifFlush is one tick of the send-queue timer.
+func (p *Peer) VerifFlush() { p.processSendQueue() }
+
+// VerifSubs returns the per-peer subscription counters.
+func (p *Peer) VerifSubs() []message.Counter { return p.subs.VerifDump() }
+
+// VerifNewPeer builds a peer over the given sender without the send-queue timer.
+func VerifNewPeer(sender mesh.Gossip, name mesh.PeerName) *Peer {
+	return &Peer{
+		sender:   sender,
+		name:     name,
+		frame:    message.NewFrame(defaultFrameSize),
+		subs:     message.NewCounters(),
+		activity: time.Now().Unix(),
+	}
+}
